@@ -1,10 +1,12 @@
 import Driver.Drv.Lru
+import Driver.Drv.PushTx
 import Driver.Drv.Store
 import Driver.Drv.Subs
 namespace Driver
 
 def drivers : List (String × CaseFn) := [
   ("lru", Driver.Drv.Lru.runCase),
+  ("pushtx", Driver.Drv.PushTx.runCase),
   ("store", Driver.Drv.Store.runCase),
   ("subs", Driver.Drv.Subs.runCase)]
 
